@@ -19,11 +19,15 @@ SizesAreBoundingBox(sh) == LET z == SizeOf(sh) IN
    /\ \A x \in sh.cells : x.c <= z.cols /\ x.r <= z.rows
    /\ (sh.cells # {} => (\E x \in sh.cells : x.c = z.cols) /\ (\E x \in sh.cells : x.r = z.rows))
    /\ (sh.cells = {} => z = [cols |-> 0, rows |-> 0])
-Laws == st.ph = "case" => \A i \in 1..Len(st.wb) : WellFormed(st.wb[i]) /\ SizesAreBoundingBox(st.wb[i])
+\* every third layout has a chart sheet among its tabs (the position rotates)
+ChartAt(wb) == LET k == Cardinality(wb[1].cells) + Len(wb) IN IF k % 3 = 0 THEN (k % Len(wb)) + 1 ELSE 0
+Laws == st.ph = "case" => /\ \A i \in 1..Len(st.wb) : WellFormed(st.wb[i]) /\ SizesAreBoundingBox(st.wb[i])
+                          /\ WorksheetTitles(Tabs(st.wb, ChartAt(st.wb))) = [i \in 1..Len(st.wb) |-> st.wb[i].title]     \* a chart sheet changes nothing
 SetToSeq(S) == LET RECURSIVE F(_)
                    F(W) == IF W = {} THEN <<>> ELSE LET x == CHOOSE y \in W : TRUE IN <<x>> \o F(W \ {x})
                IN F(S)
-Out(wb) == [sheets |-> [i \in 1..Len(wb) |-> [title |-> wb[i].title, cells |-> SetToSeq(wb[i].cells), size |-> SizeOf(wb[i])]]]
+Out(wb) == [sheets |-> [i \in 1..Len(wb) |-> [title |-> wb[i].title, cells |-> SetToSeq(wb[i].cells), size |-> SizeOf(wb[i])]],
+            chartAt |-> ChartAt(wb), titles |-> WorksheetTitles(Tabs(wb, ChartAt(wb)))]
 \* ---- gate ----
 Frag == << <<101, 118, 97, 108, 40, 49, 41>>,                                              \* eval(1)
            <<111, 115, 46, 115, 121, 115, 116, 101, 109, 40, 34, 120, 34, 41>>,             \* os.system("x")
